@@ -183,6 +183,13 @@ let dispatch (fn : Stdlib.String.t) (args : v list) : v =
       let kind = (match k with I 0 -> KCombined | I 1 -> KInsertions | I 2 -> KDeletions | _ -> bad "kind") in
       of_str (render_view kind (to_sdoc o) (to_sdoc n) (to_list (to_pair to_z to_str) ops) (to_str ic) (to_str dc)
                 (match body with L l -> List.map to_snode l | _ -> bad "body"))
+  | "diffable_fragment", [body] ->
+      let to_attrs = to_list (to_pair to_str to_str) in
+      let rec to_snode (x : v) : snode = (match x with
+        | L [I 0; s] -> SText (to_str s)
+        | L [I 1; name; attrs; I vd; L children] -> SEl (to_str name, to_attrs attrs, (vd = 1), List.map to_snode children)
+        | _ -> bad "snode") in
+      of_str (diffable_fragment (match body with L l -> List.map to_snode l | _ -> bad "body"))
   | "selected_views", [inc] -> of_list (fun k -> of_str (kind_name k)) (selected (to_str inc))
   | "html_lex", [s] ->
       let of_attrs = of_list (of_pair of_str of_str) in
